@@ -2,8 +2,10 @@ package main
 
 import (
 	"fmt"
+	"os"
 	"sort"
 	"strconv"
+	"strings"
 
 	"verif/patterns"
 )
@@ -34,6 +36,15 @@ func enumPats(tier string, seed int) []patterns.Pat {
 }
 
 func itoa(i int) string { return strconv.Itoa(i) }
+
+// systematicPats: the loop x successor x tail and alternation-prefix products (thinned in quick).
+func systematicPats(tier string, seed int) []patterns.Pat {
+	keep := 4
+	if tier == "thorough" {
+		keep = 1
+	}
+	return append(patterns.LoopSucc(keep, seed), patterns.AltPrefix(keep, seed)...)
+}
 
 func unitsFor(prop, harness string, p patterns.Pat, options int, copts string, maxN int, extra map[string]string, needAST bool) []Unit {
 	text := p.Text
@@ -104,7 +115,7 @@ var c01OptionSets = []int{0, patterns.OptI, patterns.OptM, patterns.OptS, patter
 
 func buildSpecUnits(prop string, rtl bool) func(tier string, seed int) []Unit {
 	return func(tier string, seed int) []Unit {
-		ps := dedup(append(patterns.ShapePats(), enumPats(tier, seed)...))
+		ps := dedup(append(append(patterns.ShapePats(), systematicPats(tier, seed)...), enumPats(tier, seed)...))
 		maxN := 4
 		if tier == "thorough" {
 			maxN = 5
@@ -159,7 +170,7 @@ func init() {
 	register(&propSpec{
 		ID: "C03",
 		Build: func(tier string, seed int) []Unit {
-			ps := dedup(append(patterns.ShapePats(), enumPats(tier, seed)...))
+			ps := dedup(append(append(patterns.ShapePats(), systematicPats(tier, seed)...), enumPats(tier, seed)...))
 			maxN := 5
 			if tier == "thorough" {
 				maxN = 6
@@ -177,7 +188,7 @@ func init() {
 						continue
 					}
 					mn := maxN
-					if p.Source == "enum" {
+					if p.Source == "enum" || p.Source == "shape:loopsucc" || p.Source == "shape:altprefix" {
 						mn = maxN - 1 // generated patterns are at most 3-4 atoms wide; the shape library gets the extra rune
 					}
 					us = append(us, unitsFor("C03", "accel", p, cfg.o, cfg.co, mn, nil, false)...)
@@ -304,7 +315,7 @@ func init() {
 	register(&propSpec{
 		ID: "C05",
 		Build: func(tier string, seed int) []Unit {
-			ps := dedup(append(patterns.ShapesOf("autoatomic", "endbacktrack", "alternation", "coalesce", "bumpalong", "opcodes", "landmark", "case"), enumPats(tier, seed)...))
+			ps := dedup(append(append(patterns.ShapesOf("autoatomic", "endbacktrack", "alternation", "coalesce", "bumpalong", "opcodes", "landmark", "case"), systematicPats(tier, seed)...), enumPats(tier, seed)...))
 			maxN := 4
 			sets := []int{0, patterns.OptI, patterns.OptM, patterns.OptS, patterns.OptRE2}
 			if tier == "thorough" {
@@ -359,6 +370,19 @@ func init() {
 			var us []Unit
 			for _, p := range ps {
 				us = append(us, unitsFor("C13", "limit", p, 0, "", maxN, map[string]string{"lmax": itoa(lmax), "ldom": ldom, "l2dom": l2dom}, false)...)
+			}
+			// runs of single-character loops, left-to-right, right-to-left and inside look-behind: each loop
+			// pushes backtracking state, so these need texts as long as the run (n <= 4) to reach the reserve
+			for _, p := range patterns.ShapesOf("stackdeep") {
+				for _, o := range []int{0, patterns.OptRTL} {
+					for n := 3; n <= 4; n++ {
+						if tier != "thorough" && n == 3 {
+							continue
+						}
+						params := map[string]string{"pattern": p.Text, "options": itoa(o), "copts": "", "n": itoa(n), "lmax": "48", "ldom": "0-48", "l2dom": "1-56,100000", "key_extra": "deep"}
+						us = append(us, Unit{ID: fmt.Sprintf("C13/deep/%s/o%d/n%d", p.Text, o, n), Harness: "limit", PathBudget: 60000, Params: params})
+					}
+				}
 			}
 			return us
 		},
@@ -474,7 +498,7 @@ func init() {
 	register(&propSpec{
 		ID: "C04",
 		Build: func(tier string, seed int) []Unit {
-			ps := dedup(append(patterns.ShapePats(), enumPats(tier, seed)...))
+			ps := dedup(append(append(patterns.ShapePats(), systematicPats(tier, seed)...), enumPats(tier, seed)...))
 			maxN := 4
 			if tier == "thorough" {
 				maxN = 5
@@ -763,7 +787,11 @@ func stringUnits(prop, harness string, ps []patterns.Pat, cfgs []struct {
 					for kk, v := range extra {
 						params[kk] = v
 					}
-					us = append(us, Unit{ID: fmt.Sprintf("%s/%s/o%d%s/%s%d", prop, p.Text, cfg.o, cfg.co, mode, n), Harness: harness, Params: params})
+					dom := ""
+					if mode == "b" {
+						dom = "full" // raw bytes decode to any rune: the clipped rune domain would be unsound here
+					}
+					us = append(us, Unit{ID: fmt.Sprintf("%s/%s/o%d%s/%s%d", prop, p.Text, cfg.o, cfg.co, mode, n), Harness: harness, Domain: dom, Params: params})
 				}
 			}
 		}
@@ -826,9 +854,9 @@ func init() {
 				ps = append(ps, patterns.FromText(t, 0, "shape:replace"))
 			}
 			reps := []string{"<$&>", "$1", "${1}x", "$$", "$`|$'", "$+", "$_", "${x}", "${n}", "$2$1", "x", "$", "$9", "${", "$10", "${2}", ""}
-			maxN := 3
+			maxN, symN := 2, "1"
 			if tier == "thorough" {
-				maxN = 4
+				maxN, symN = 3, "2"
 			}
 			var us []Unit
 			for i, p := range ps {
@@ -848,15 +876,305 @@ func init() {
 							if rk == 3 && tier != "thorough" {
 								continue
 							}
-							us = append(us, Unit{ID: fmt.Sprintf("C09/%s/o%d/sym%d/n2", p.Text, o, rk), Harness: "replace", PathBudget: 60000,
-								Params: map[string]string{"pattern": p.Text, "options": itoa(o), "copts": "", "n": "2", "rep": "", "repk": itoa(rk), "key_extra": "symrep"}})
+							us = append(us, Unit{ID: fmt.Sprintf("C09/%s/o%d/sym%d/n%s", p.Text, o, rk, symN), Harness: "replace", PathBudget: 60000,
+								Params: map[string]string{"pattern": p.Text, "options": itoa(o), "copts": "", "n": symN, "rep": "", "repk": itoa(rk), "key_extra": "symrep"}})
 						}
 					}
 				}
 			}
 			return us
 		},
-		Rule:      "For each (pattern, direction, replacement, n): subject = string of n symbolic scalars; startAt in [-1,len] and count in [-1,3] are solver variables (case-split); the replacement is a fixed string from the $-grammar or k symbolic bytes over the alphabet {$,{,},0,1,2,a,&,`,',+,_,x}; on every feasible path Replace equals the fold over FindStringMatchStartingAt/FindNextMatch with an independent $-expander, ReplaceFunc with that expander equals Replace, Replace with $& is the identity, Split pieces re-joined with the matched texts rebuild the input.",
+		Rule:      "For each (pattern, direction, replacement, n): subject = string of n symbolic scalars; startAt in [-1,len] and count in [-1,2] are solver variables (case-split); the replacement is a fixed string from the $-grammar or k symbolic bytes over the alphabet {$,{,},0,1,2,a,&,`,',+,_,x}; on every feasible path Replace equals the fold over FindStringMatchStartingAt/FindNextMatch with an independent $-expander, ReplaceFunc with that expander equals Replace, Replace with $& is the identity, Split pieces re-joined with the matched texts rebuild the input.",
 		Witnesses: []string{"replaced", "nothing-replaced", "split-leg", "end"},
+	})
+}
+
+// ---------------------------------------------------------------- C06
+
+// inRE2Fragment: constructs common to both engines on which leftmost-first and
+// backtracking semantics coincide (no quantified nullable sub-pattern).
+func inRE2Fragment(text string) bool {
+	a, _, err := patterns.Parse(text, patterns.OptRE2)
+	if err != nil || !a.InFragmentC01() {
+		return false
+	}
+	ok := true
+	a.Walk(func(n *patterns.Node) {
+		switch n.K {
+		case patterns.Look, patterns.Atomic, patterns.Backref, patterns.CondRef, patterns.CondExpr, patterns.StartG, patterns.EndZ:
+			ok = false
+		case patterns.Cap:
+			if n.Name != "" {
+				ok = false // (?<n>..) spelling differs between Go versions; numbered groups only
+			}
+		case patterns.Class:
+			for _, it := range n.Items {
+				if it.Cat != "" && it.Cat != "d" && it.Cat != "w" && it.Cat != "s" && it.Cat != "Lu" && it.Cat != "Ll" && it.Cat != "L" && it.Cat != "Nd" && it.Cat != "Greek" {
+					ok = false
+				}
+			}
+		}
+	})
+	if strings.Contains(text, "(?") && !strings.Contains(text, "(?:") && !strings.Contains(text, "(?i") && !strings.Contains(text, "(?s") && !strings.Contains(text, "(?m") {
+		ok = false
+	}
+	return ok
+}
+
+func init() {
+	register(&propSpec{
+		ID: "C06",
+		Build: func(tier string, seed int) []Unit {
+			extra := []string{`a`, `ab`, `a|b`, `a*`, `a+b`, `(a)(b)?`, `(a|ab)(c|bcd)(d*)`, `[ab]+`, `[^a]`, `.`, `(?s).`, `^a`, `a$`, `(?m)^a$`, `\Aa`, `a\z`, `\ba`, `a\b`, `\Ba`, `\d+`, `\w+`, `\s`, `\W`,
+				`(a*)(b*)`, `(?i)ab`, `a*?b`, `(a+?)(b*)`, `a{2}`, `(?:ab){1,2}`, `x*`, `(a)|b`, `(a)|(b)`, `é`, `\p{Lu}`, `\p{Greek}+`, `[[:alpha:]]+`, `[[:^digit:]]`, `\x{10000}`, `a.c`, `()`, `(|a)`, `a||b`, `\S+`, `[\d\s]`, `(?i)k`, `(?i)[a-c]x`, `^`, `$`, `\b`, `a?`, `(a?)(a?)`, `�`}
+			var ps []patterns.Pat
+			for _, t := range extra {
+				ps = append(ps, patterns.FromText(t, 0, "shape:re2"))
+			}
+			ps = dedup(append(ps, enumPats(tier, seed)...))
+			maxN := 2
+			if tier == "thorough" {
+				maxN = 3
+			}
+			var us []Unit
+			cnt := 0
+			for _, p := range ps {
+				if p.Source == "enum" {
+					if !inRE2Fragment(p.Text) {
+						continue
+					}
+					cnt++
+					if tier != "thorough" && cnt%3 != seed%3 {
+						continue
+					}
+				}
+				for n := 0; n <= maxN; n++ {
+					if p.Source == "enum" && n == maxN {
+						continue // generated patterns: one byte less than the hand-picked ones
+					}
+					us = append(us, Unit{ID: fmt.Sprintf("C06/%s/n%d", p.Text, n), Pkg: "compat", Harness: "compat", Domain: "full",
+						Params: map[string]string{"pattern": p.Text, "options": "512", "copts": "", "n": itoa(n)}})
+				}
+			}
+			return us
+		},
+		Rule:      "For each pattern of the RE2-common fragment and n: the subject is n raw symbolic bytes (invalid UTF-8 included) and the find-all limit k a solver variable in [-1,2]; the adapter (compiled with the RE2 option) and Go's regexp package are BOTH executed symbolically from their SSA on the same bytes; on every feasible path each of the 21 Matcher methods (string, []byte and RuneReader variants) is asserted to return the same value (nil-ness, byte offsets, -1 pairs, empty-match adjacency rule, k).",
+		Witnesses: []string{"match", "nomatch", "end"},
+	})
+}
+
+// ---------------------------------------------------------------- C10
+
+func corpusSeeds(max int, seed int) []string {
+	dir := repoDir + "/syntax/workdir/corpus"
+	ents, err := os.ReadDir(dir)
+	if err != nil {
+		return nil
+	}
+	var all []string
+	for _, e := range ents {
+		b, err := os.ReadFile(dir + "/" + e.Name())
+		if err != nil || len(b) == 0 || len(b) > 24 {
+			continue
+		}
+		all = append(all, string(b))
+	}
+	sort.Slice(all, func(i, j int) bool {
+		return hashSeed(all[i], seed) < hashSeed(all[j], seed)
+	})
+	if len(all) > max {
+		all = all[:max]
+	}
+	return all
+}
+
+func hashSeed(s string, seed int) uint64 {
+	var h uint64 = 1469598103934665603 ^ uint64(seed)*1099511628211
+	for i := 0; i < len(s); i++ {
+		h ^= uint64(s[i])
+		h *= 1099511628211
+	}
+	return h
+}
+
+func init() {
+	register(&propSpec{
+		ID: "C10",
+		Build: func(tier string, seed int) []Unit {
+			var us []Unit
+			nSeeds, perSeed := 16, 1
+			if tier == "thorough" {
+				nSeeds, perSeed = 300, 3
+			}
+			handSeeds := []string{`a(b)c`, `[a-c]+`, `(?<n>a)\k<n>`, `a{2,3}?`, `(?i)x|y`, `\p{Lu}\d`, `(?(1)a|b)`, `(?<=a)b`, `[a-z-[aeiou]]`, `A\x41\cA`, `(?<o>a)(?<-o>b)`, `a|b|`, `(?#c)a`, `\bfoo\b`, `^$`, `(a)*?`, `\1(a)`, `[[:alpha:]]`, `(?x) a # c`, `\Ga\Z`}
+			if tier != "thorough" {
+				// a symbolic literal inside a Boyer-Moore prefix costs minutes (table writes through a symbolic index): thorough only
+				handSeeds = handSeeds[1:15]
+			}
+			seeds := append(handSeeds, corpusSeeds(nSeeds, seed)...)
+			for si, sd := range seeds {
+				for k := 0; k < perSeed; k++ {
+					pos := int(hashSeed(sd, seed+k+1) % uint64(len(sd)))
+					o := []int{0, patterns.OptI, patterns.OptRTL, patterns.OptX, patterns.OptE, patterns.OptRE2, patterns.OptM | patterns.OptS | patterns.OptN, patterns.OptI | patterns.OptRTL}[(si+k)%8]
+					params := map[string]string{"pattern": sd, "positions": itoa(pos), "options": itoa(o), "texts": ",ab", "symtext": "0", "key_extra": "pos" + itoa(pos), "copts": "b"}
+					if tier == "thorough" && k == 0 {
+						params["copts"] = "" // with the ASCII bitmaps built from the symbolic class (128 membership tests per set: expensive)
+						params["texts"] = ",ab,a\nb"
+					}
+					if (si+k)%5 == 0 {
+						params["symmask"] = "1"
+						params["key_extra"] += "/mask"
+					}
+					us = append(us, Unit{ID: fmt.Sprintf("C10/mutate/%q/p%d/o%d", sd, pos, o), Harness: "mutate", Domain: "full", StepBudget: 80_000_000, PathBudget: 40000, Params: params})
+				}
+			}
+			// short arbitrary patterns: one fully symbolic byte, alone and next to interesting neighbours
+			for _, ctx := range []string{"_", "_a", "a_", "(_)", "[_]", `\_`, "a{_}", "(?_)", "a_b", "[a-_]", `\p{_}`, "(?<_>a)", "$_"} {
+				pat := strings.Replace(ctx, "_", "X", 1)
+				pos := strings.Index(ctx, "_")
+				sopts := []int{0, patterns.OptRTL | patterns.OptI}
+				if tier == "thorough" {
+					sopts = []int{0, patterns.OptRTL | patterns.OptI, patterns.OptE, patterns.OptRE2, patterns.OptX}
+				}
+				for _, o := range sopts {
+					us = append(us, Unit{ID: fmt.Sprintf("C10/short/%s/o%d", ctx, o), Harness: "mutate", Domain: "full", StepBudget: 80_000_000, PathBudget: 40000,
+						Params: map[string]string{"pattern": pat, "positions": itoa(pos), "options": itoa(o), "texts": ",ab", "symtext": "1", "key_extra": "short", "copts": "b"}})
+				}
+			}
+			if tier == "thorough" {
+				us = append(us, Unit{ID: "C10/short/__/o0", Harness: "mutate", Domain: "full", StepBudget: 80_000_000, PathBudget: 200000,
+					Params: map[string]string{"pattern": "XX", "positions": "0,1", "options": "0", "texts": ",ab", "symtext": "0", "key_extra": "short2"}})
+			}
+			// API arguments
+			maxN := 2
+			if tier == "thorough" {
+				maxN = 3
+			}
+			for _, p := range []string{`a`, `a*`, `(a)|b`, `\b`, `(?<n>.)`, `$`, `[^a]+`, `(a)(b)?`, `\Ga`, `(?<=a)`, `.`} {
+				for _, o := range []int{0, patterns.OptRTL} {
+					for n := 0; n <= maxN; n++ {
+						us = append(us, Unit{ID: fmt.Sprintf("C10/args/%s/o%d/n%d", p, o, n), Harness: "args", Domain: "full",
+							Params: map[string]string{"pattern": p, "options": itoa(o), "copts": "", "n": itoa(n), "rep": "<$1${n}$&>", "key_extra": "args"}})
+					}
+				}
+			}
+			for n := 0; n <= maxN-1; n++ {
+				us = append(us, Unit{ID: fmt.Sprintf("C10/escape/n%d", n), Harness: "argsescape", Domain: "full", PathBudget: 100000,
+					Params: map[string]string{"pattern": "(a)(?<n>b)", "options": "0", "copts": "", "n": itoa(n), "key_extra": "escape"}})
+			}
+			return us
+		},
+		Rule: "Three harnesses, all asserting 'returns normally or with an error value; no Go run-time panic on any feasible path'. (1) mutate: a seed pattern (hand-picked + parser corpus files <= 24 bytes) with one byte replaced by a symbolic byte 0..255, compiled by the real parser/reducer/writer/analyzers under a concrete option set (every 5th unit: the option mask itself symbolic over the 9 defined bits), then Match/Find/iterate/FindAll/Replace/Split on fixed texts (and one symbolic text byte for the short patterns). (2) args: fixed patterns, subject = n raw symbolic bytes, startAt in [-2,n+2] and count in [-2,2] as solver variables, every string/rune entry point incl. out-of-range arguments. (3) Escape/Unescape/replacement-pattern parsing of n arbitrary symbolic bytes. 'Never hangs' = every path ends within the instruction budget.",
+		Witnesses: []string{"compiled", "parse-error", "match", "end", "argument-error"},
+	})
+}
+
+// ---------------------------------------------------------------- C12
+
+func init() {
+	register(&propSpec{
+		ID: "C12",
+		Build: func(tier string, seed int) []Unit {
+			pats := []struct{ a, b string }{
+				{`(a)|b`, `\w+`}, {`(?<o>a)+(?<-o>b)+(?(o)(?!))`, `a`}, {`a+b`, `(a)(b)`}, {`(a*)(b)?`, `[ab]+`}, {`\b\w`, `(x)|y`}, {`(?:(a)|b)*c`, `a*`},
+				{`(a)(?=(b))`, `.`}, {`ab|cd`, `(?<n>a)`}, {`(?<=(a))b`, `b`},
+			}
+			ops := []string{"ms", "mr", "fs", "fa", "rp", "rq", "rf", "sp"}
+			hists := []string{"ms", "fs", "rp", "sp", "lim", "b:fs", "b:rp", "ms,fs", "fs,ms", "rp,rq", "mr,sp", "lim,fs", "b:ms,ms", "fa,rf", "rf,fa"}
+			n, hn := 2, 1
+			if tier == "thorough" {
+				n, hn = 2, 2
+			}
+			var us []Unit
+			k := 0
+			for pi, p := range pats {
+				for oi, op := range ops {
+					for hi, h := range hists {
+						k++
+						if tier != "thorough" && (pi+oi+hi+seed)%6 != 0 {
+							continue
+						}
+						params := map[string]string{"pattern": p.a, "pattern_b": p.b, "options": "0", "copts": "", "n": itoa(n), "hn": itoa(hn), "op": op, "history": h, "key_extra": op + "/" + h}
+						us = append(us, Unit{ID: fmt.Sprintf("C12/%s/%s/after/%s", p.a, op, h), Harness: "history", Params: params})
+					}
+					// one inductive step from a havocked recycled runner
+					if tier == "thorough" || (pi+oi+seed)%2 == 0 {
+						for _, h := range []string{"ms", "fs"} {
+							params := map[string]string{"pattern": p.a, "pattern_b": p.b, "options": "0", "copts": "", "n": itoa(n), "hn": itoa(hn), "op": op, "history": h, "havoc": "1", "key_extra": op + "/havoc/" + h}
+							us = append(us, Unit{ID: fmt.Sprintf("C12/%s/%s/havoc/%s", p.a, op, h), Harness: "history", Params: params})
+						}
+					}
+				}
+				// sizes crossing the pooled buffer classes (1K runes): history on a large text, then a small one, and vice versa
+				for _, cfg := range [][3]string{{"1100", "0", "fs"}, {"0", "1100", "ms"}, {"1100", "1100", "rp"}, {"4200", "0", "fa"}} {
+					if tier != "thorough" && pi%3 != 0 {
+						continue
+					}
+					params := map[string]string{"pattern": p.a, "pattern_b": p.b, "options": "0", "copts": "", "n": "1", "hn": "1", "op": "fs", "history": cfg[2], "pad0": cfg[0], "pad": cfg[1], "key_extra": "pad" + cfg[0] + "/" + cfg[1]}
+					us = append(us, Unit{ID: fmt.Sprintf("C12/%s/pad%s-%s/%s", p.a, cfg[0], cfg[1], cfg[2]), Harness: "history", StepBudget: 60_000_000, Params: params})
+				}
+			}
+			return us
+		},
+		Rule: "For each (pattern pair, final call, history): (1) histories of <= 2 earlier calls (bool, find+iterate, find-all, Replace with two replacement patterns, ReplaceFunc, Split, a match that hits the stack limit, calls on another Regexp sharing the global pools) on symbolic texts, the modelled sync.Pool always handing back the most recently returned runner/buffer; (2) one inductive step: after a call the pooled runner's stacks, crawl, positions, code position and retained match arrays are replaced by fresh solver variables (havoc) under the representation invariant; then the final call on a symbolic text; on every feasible path its result equals the same call on a never-used Regexp compiled from the same pattern.",
+		Witnesses: []string{"havoc", "history-hit-limit", "end"},
+	})
+}
+
+// ---------------------------------------------------------------- C11, C14
+
+func init() {
+	register(&propSpec{
+		ID: "C11",
+		Build: func(tier string, seed int) []Unit {
+			pats := []struct{ a, b string }{{`(a)|b`, `\w+`}, {`a+b`, `(a)(b)`}, {`(?<o>a)+(?<-o>b)+(?(o)(?!))`, `a`}, {`\b\w`, `x|y`}, {`(a*)(b)?`, `[ab]+`}}
+			mixes := []string{"ms,ms", "ms,fs", "fs,fs", "fa,ms", "rp,rq", "rp,rp", "sp,ms", "rf,fs", "ms,b:ms", "rp,b:rp", "fs,b:fa", "mr,mr"}
+			n, pre := 1, 2
+			if tier == "thorough" {
+				n, pre = 2, 3
+				mixes = append(mixes, "ms,fs,rp", "rp,rq,b:rp", "fs,fs,fs")
+			}
+			var us []Unit
+			for pi, p := range pats {
+				for mi, mx := range mixes {
+					if tier != "thorough" && (pi+mi+seed)%3 != 0 {
+						continue
+					}
+					us = append(us, Unit{ID: fmt.Sprintf("C11/%s/%s", p.a, mx), Harness: "conc", PathBudget: 30000,
+						Params: map[string]string{"pattern": p.a, "pattern_b": p.b, "options": "0", "copts": "", "n": itoa(n), "ops": mx, "preempt": itoa(pre), "key_extra": mx}})
+				}
+			}
+			return us
+		},
+		Rule: "For each (pattern pair, call mix): one goroutine per call (bool, find+iterate, find-all, Replace with distinct replacement patterns, ReplaceFunc, Split; on a shared Regexp and on a second Regexp sharing the global pools) on symbolic ASCII texts; the goroutines are coroutines of the interpreter, the scheduler's choice at every synchronisation operation (sync.Pool Get/Put, Mutex Lock/Unlock, sync/atomic, go, exit) is a solver decision, all interleavings up to the pre-emption bound are explored; on each, every call's result equals the result of the same call alone on an unused Regexp, and a vector-clock access log over every load/store reports unordered conflicting accesses.",
+		Witnesses: []string{"end"},
+		Assumptions: []string{"interleavings at synchronisation granularity only (segments free of synchronisation run atomically; covered only through the absence of unordered conflicting accesses in the access log); sync.Pool hands back the most recently returned object; at most 2 (quick) / 3 (thorough) pre-emptions; 2-3 goroutines"},
+	})
+	register(&propSpec{
+		ID: "C14",
+		Build: func(tier string, seed int) []Unit {
+			hists := []string{"timed", "quick", "timed,timed", "timed,idle-long,timed", "idle-short,timed", "timed,stop,timed", "quick,idle-long,quick", "stop,timed", "timed,idle-long,quick"}
+			if tier == "thorough" {
+				hists = append(hists, "timed,timed,timed", "timed,idle-long,timed,idle-long,quick", "quick,stop,quick,timed", "timed,idle-short,timed,stop")
+			}
+			var us []Unit
+			for hi, h := range hists {
+				for ci, cfg := range []struct{ period, ddom, waitdom string }{
+					{"100000000", "150000000-250000000", "0-600000000"},
+					{"1000000", "5000000-8000000", "0-16000000"},
+				} {
+					pre := "0"
+					if hi == 0 && ci == 0 || tier == "thorough" && hi < 4 {
+						pre = "1" // pre-emptions of the main goroutine at its synchronisation operations
+					}
+					us = append(us, Unit{ID: fmt.Sprintf("C14/%s/p%s/pre%s", h, cfg.period, pre), Harness: "clock", PathBudget: 40000, StepBudget: 30_000_000,
+						Params: map[string]string{"pattern": "clock", "history": h, "period_ns": cfg.period, "jitter_ns": "1000000", "ddom": cfg.ddom, "waitdom": cfg.waitdom, "preempt": pre, "key_extra": h + "/" + cfg.period}})
+				}
+			}
+			return us
+		},
+		Rule: "The real makeDeadline / extendClock / runClock / stopClock / reached / durationToTicks are executed with the clock goroutine as a coroutine and a virtual clock: time.Now/Since read a symbolic instant, time.Sleep(p) resumes at a symbolic instant in [t+p, t+p+J]; the timeout d and every waiting time are solver variables in stated ranges; histories of timed matches, quick matches, idle gaps shorter/longer than the timeout, StopTimeoutClock; on every feasible path: a deadline reported reached implies elapsed >= d - (p + J + 2 ticks), not reached implies elapsed < d + 3p + 2J + 2 ticks, a quick match never sees a timeout, the clock goroutine has exited after the last deadline + 1 s + slop and is restarted by the next deadline.",
+		Witnesses: []string{"timeout-fired", "no-timeout", "end"},
+		Assumptions: []string{"virtual time: code between two Sleep calls takes no time; scheduling jitter of a sleeper is at most J = 1 ms; the matcher is replaced by polling reached() at an arbitrary later instant"},
 	})
 }
